@@ -460,7 +460,9 @@ class Program:
         if (ref.qual, allow_decorated) in cache:
             return cache[(ref.qual, allow_decorated)]
         n = ref.node
-        ok = n.name not in self.vocabulary() and not n.name.startswith("__") and (allow_decorated or not n.decorator_list) and \
+        # a member of a record class (frozen dataclass / NamedTuple) whose CLASS no rule knows is private to that record, whatever its name
+        record_member = ref.cls is not None and ref.cls.name not in self.vocabulary() and self.namedtuple_fields(f"{ref.module.name}.{ref.cls.name}") is not None
+        ok = (n.name not in self.vocabulary() or record_member) and not n.name.startswith("__") and (allow_decorated or not n.decorator_list) and \
             not any(isinstance(x, (ast.Yield, ast.YieldFrom, ast.Global, ast.Nonlocal, ast.AsyncFunctionDef, ast.ClassDef, ast.Lambda and ast.FunctionDef)) for x in ast.walk(n) if x is not n) \
             and sum(1 for x in ast.walk(n) if isinstance(x, ast.stmt)) <= 25
         cache[(ref.qual, allow_decorated)] = ok
